@@ -741,6 +741,30 @@ def _stamp_ok(F, CG, fn, t, seen, depth=0):
         return False, "derived from %s" % ", ".join(sorted({c[1].split("::")[-1] for c in cs}))
     if t[0] == "field" and t[1][0] in ("field", "call"):
         return False, "derived from a field"
+    if t[0] == "field":
+        base = t[1]
+        while base[0] in ("cast", "ref", "deref"):
+            base = base[1]
+        if base[0] == "param" and isinstance(base[1], int):
+            # a field of a parameter struct (`slot.block_height`): what each caller put into that field
+            from terms import simplify as _simp
+            key = (fn.id, base[1], t[2])
+            if key in seen or depth > 6:
+                return True, "recursive"
+            seen.add(key)
+            callers = [(g, c) for g in F.body_fns() for c in g.calls() if c.target_id == fn.id and not g.is_cleanup(c.bb)]
+            if not callers:
+                return True, "no callers in the crate (public API parameter)"
+            for g, c in callers:
+                if base[1] - 1 >= len(c.args):
+                    continue
+                a = origin(g, c.args[base[1] - 1])
+                while a[0] in ("cast", "ref", "deref"):
+                    a = a[1]
+                ok, why = _stamp_ok(F, CG, g, _simp(("field", a, t[2])), seen, depth + 1)
+                if not ok:
+                    return False, "caller %s passes %s" % (g.name.split("::")[-1], why)
+            return True, "all callers put the height under construction into %s" % t[2]
     if t[0] == "param":
         # recurse into callers: the argument at that position
         key = (fn.id, t[1])
